@@ -218,31 +218,36 @@ def _rotations(ctx, cfg):
         ctx.eq_arrays("rotate_rho/model-rho == U rho U^dagger", U.cdec(q2._arr), UrU, z3_confirm=False)
 
     # ---- rotated amplitudes / probabilities of a batch of outcomes (repeats, any order)
-    order = list(range(D))[::-1] + [0, D - 1, 0]
-    batch = space[order].clone()
-    keep = batch.clone()
-    for label, kw_psi in (("explicit", {"psi": psi_t}), ("model", {})):
-        with N.stubbed(cw, "psi", _psi_stub(psi_c)):
-            a = unitaries.rotate_psi_inner_prod(cw, basis, batch, **kw_psi)
-            ctx.holds("rotate_psi_inner_prod/%s/shape" % label, tuple(a.shape) == (2, len(order)), str(tuple(a.shape)))
-            for b, k in enumerate(order):
-                ctx.eq("rotate_psi_inner_prod/%s == (U psi)[index][b=%d]" % (label, b), a._arr[0, b] + I * a._arr[1, b], Upsi[k], z3_confirm=False)
-            a2, av, vv = unitaries.rotate_psi_inner_prod(cw, basis, batch, include_extras=True, **kw_psi)
-            ctx.eq_arrays("rotate_psi_inner_prod/%s/extras: same result" % label, a2, a, z3_confirm=False)
-            ctx.eq_arrays("rotate_psi_inner_prod/%s/extras: terms sum to result" % label, np.sum(av._arr, axis=1), a._arr, z3_confirm=False)
-            ctx.holds("rotate_psi_inner_prod/%s/extras: v shape" % label, tuple(vv.shape)[1:] == tuple(batch.shape) and tuple(av.shape) == (2, vv.shape[0], len(order)))
-            a1 = unitaries.rotate_psi_inner_prod(cw, basis, batch[1:2], **kw_psi)
-            ctx.eq("rotate_psi_inner_prod/%s/batch-of-one" % label, a1._arr[0].reshape(-1)[0] + I * a1._arr[1].reshape(-1)[0], Upsi[order[1]], z3_confirm=False)
-        with N.stubbed(dm, "rho", _rho_stub(rho_c)):
-            kw_rho = {"rho": rho_t} if label == "explicit" else {}
-            p = unitaries.rotate_rho_probs(dm, basis, batch, **kw_rho)
-            ctx.holds("rotate_rho_probs/%s/shape" % label, tuple(p.shape) == (len(order),), str(tuple(p.shape)))
-            for b, k in enumerate(order):
-                ctx.eq("rotate_rho_probs/%s == Re (U rho U^dagger)[index,index][b=%d]" % (label, b), p._arr[b], alg.re(UrU[k, k]), z3_confirm=False)
-            p2, pv, vv = unitaries.rotate_rho_probs(dm, basis, batch, include_extras=True, **kw_rho)
-            ctx.eq_arrays("rotate_rho_probs/%s/extras: same result" % label, p2, p, z3_confirm=False)
-            ctx.eq_arrays("rotate_rho_probs/%s/extras: real terms sum to result" % label, np.sum(pv._arr[0], axis=(0, 1)), p._arr, z3_confirm=False)
-    ctx.holds("batch-of-outcomes-not-modified", torch.equal(batch, keep))
+    # (also a batch of exactly 2^n rows that is NOT the ordered basis: the number of rows says nothing about their content)
+    orders = [("", list(range(D))[::-1] + [0, D - 1, 0]), ("2^n-rows/", (list(range(1, D))[::-1] + [D - 1]) if D > 1 else [0])]
+    unchanged = True
+    for otag, order in orders:
+        batch = space[order].clone()
+        keep = batch.clone()
+        for label, kw_psi in (("explicit", {"psi": psi_t}), ("model", {})):
+            with N.stubbed(cw, "psi", _psi_stub(psi_c)):
+                a = unitaries.rotate_psi_inner_prod(cw, basis, batch, **kw_psi)
+                ctx.holds("rotate_psi_inner_prod/" + otag + "%s/shape" % label, tuple(a.shape) == (2, len(order)), str(tuple(a.shape)))
+                for b, k in enumerate(order):
+                    ctx.eq("rotate_psi_inner_prod/" + otag + "%s == (U psi)[index][b=%d]" % (label, b), a._arr[0, b] + I * a._arr[1, b], Upsi[k], z3_confirm=False)
+                a2, av, vv = unitaries.rotate_psi_inner_prod(cw, basis, batch, include_extras=True, **kw_psi)
+                ctx.eq_arrays("rotate_psi_inner_prod/" + otag + "%s/extras: same result" % label, a2, a, z3_confirm=False)
+                ctx.eq_arrays("rotate_psi_inner_prod/" + otag + "%s/extras: terms sum to result" % label, np.sum(av._arr, axis=1), a._arr, z3_confirm=False)
+                ctx.holds("rotate_psi_inner_prod/" + otag + "%s/extras: v shape" % label, tuple(vv.shape)[1:] == tuple(batch.shape) and tuple(av.shape) == (2, vv.shape[0], len(order)))
+                a1 = unitaries.rotate_psi_inner_prod(cw, basis, batch[1:2], **kw_psi)
+                ctx.eq("rotate_psi_inner_prod/" + otag + "%s/batch-of-one" % label, a1._arr[0].reshape(-1)[0] + I * a1._arr[1].reshape(-1)[0], Upsi[order[1]], z3_confirm=False)
+            with N.stubbed(dm, "rho", _rho_stub(rho_c)):
+                kw_rho = {"rho": rho_t} if label == "explicit" else {}
+                p = unitaries.rotate_rho_probs(dm, basis, batch, **kw_rho)
+                ctx.holds("rotate_rho_probs/" + otag + "%s/shape" % label, tuple(p.shape) == (len(order),), str(tuple(p.shape)))
+                for b, k in enumerate(order):
+                    ctx.eq("rotate_rho_probs/" + otag + "%s == Re (U rho U^dagger)[index,index][b=%d]" % (label, b), p._arr[b], alg.re(UrU[k, k]), z3_confirm=False)
+                p2, pv, vv = unitaries.rotate_rho_probs(dm, basis, batch, include_extras=True, **kw_rho)
+                ctx.eq_arrays("rotate_rho_probs/" + otag + "%s/extras: same result" % label, p2, p, z3_confirm=False)
+                ctx.eq_arrays("rotate_rho_probs/" + otag + "%s/extras: real terms sum to result" % label, np.sum(pv._arr[0], axis=(0, 1)), p._arr, z3_confirm=False)
+
+        unchanged = unchanged and torch.equal(batch, keep)
+    ctx.holds("batch-of-outcomes-not-modified", unchanged)
 
     # ---- history: the same basis string with ANOTHER dictionary in the same process (nothing may be carried over from
     # the calls above: user-added unitaries, states with different dictionaries, a dictionary edited in place)
